@@ -453,7 +453,7 @@ Proof. intros H i v. unfold bs_get, bs_set, bs_swap. rewrite H. cbn. auto. Qed.
 
 Lemma mk_mask_ones bts : (1 <= bts <= 63)%Z -> mk_mask bts = N.ones (Z.to_N bts).
 Proof.
-  intros H. unfold mk_mask. rewrite (shl64_small 1 (Z.to_N bts) 1) by (cbn; lia).
+  intros H. unfold mk_mask. rewrite (shl64_small 1 (Z.to_N bts) 1); [|reflexivity|lia].
   rewrite N.ones_equiv. unfold two64.
   assert (P : 2 ^ Z.to_N bts < 2 ^ 64) by (apply N.pow_lt_mono_r; lia).
   pose proof (pow2_pos (Z.to_N bts)) as Q.
